@@ -385,6 +385,24 @@ def np_call(name: str, args: list, kwargs: dict) -> Any:
     f = {'min': BIN['minimum'], 'amin': BIN['minimum'], 'max': BIN['maximum'], 'amax': BIN['maximum'], 'sum': operator.add}[name]
     axis = kwargs.get('axis', args[1] if len(args) > 1 else None)
     return a0.reduce(f, axis, bool(kwargs.get('keepdims', False)))
+  if name == 'square' and len(args) == 1:
+    return a0.map(lambda x: x * x)
+  if name == 'mean' and len(args) == 1 and not kwargs:
+    import fractions  # pylint: disable=g-import-not-at-top
+    if not a0.data:
+      raise NotModelled('mean of an empty array')
+    tot = sum(a0.data)
+    return tot / len(a0.data) if isinstance(tot, float) else fractions.Fraction(tot) / len(a0.data)
+  if name == 'median' and len(args) == 1 and not kwargs:
+    import fractions  # pylint: disable=g-import-not-at-top
+    xs = sorted(a0.data)
+    if not xs:
+      raise NotModelled('median of an empty array')
+    mid = len(xs) // 2
+    if len(xs) % 2:
+      return xs[mid]
+    tot = xs[mid - 1] + xs[mid]
+    return tot / 2 if isinstance(tot, float) else fractions.Fraction(tot) / 2
   if name in ('all', 'any') and len(args) == 1 and not (set(kwargs) - {'axis'}) and kwargs.get('axis') is None:
     return (all if name == 'all' else any)(bool(x) for x in a0.data)
   if name in ('abs', 'absolute'):
@@ -422,6 +440,8 @@ def np_call(name: str, args: list, kwargs: dict) -> Any:
 
 
 def method(arr: NdArr, attr: str, args: list, kwargs: dict) -> Any:
+  if attr in ('mean', 'sum', 'min', 'max') and not args and not kwargs:
+    return np_call(attr, [arr], {})
   if attr == 'reshape':
     return arr.reshape(args[0] if len(args) == 1 else tuple(args))
   if attr == 'transpose':
